@@ -265,6 +265,35 @@ def check_part(res, ap, orig_part, rp, opname, policy, update_ids, orig_objs):
         beyond = [tp for tp in rp._points if tp.t - t0 > off]
         dangling = bool(beyond) and all(not any(len(oo) for oo in tp.starting_objects.values()) for tp in beyond)
         res.violation("U1-length", opname, "result spans %d divisions, the visited measures sum to %d%s" % (total, off, " (only ends of objects that start in a visited segment and end outside it lie beyond the end)" if dangling else ""), site="length:dangling-end" if dangling else "length")
+    # U1 signatures: every visit of a measure stands under the time and key signature the measure has in the original
+    def in_force(entries, t, fields):
+        cur = None
+        for x in sorted(entries, key=lambda x: x["t"]):
+            if x["t"] <= t:
+                cur = tuple(x.get(f) for f in fields)
+        return cur
+
+    o_ = 0
+    for i_, m in enumerate(seq):
+        wt = in_force(ap.get("timesigs", []), ms[m]["s"], ("beats", "beat_type"))
+        wk = in_force(ap.get("keysigs", []), ms[m]["s"], ("fifths",))
+        cur_ts = None
+        for x in rp.iter_all(S.TimeSignature):
+            if x.start.t <= t0 + o_ and (cur_ts is None or x.start.t >= cur_ts.start.t):
+                cur_ts = x
+        cur_ks = None
+        for x in rp.iter_all(S.KeySignature):
+            if x.start.t <= t0 + o_ and (cur_ks is None or x.start.t >= cur_ks.start.t):
+                cur_ks = x
+        gt = (cur_ts.beats, cur_ts.beat_type) if cur_ts is not None else None
+        gk = (cur_ks.fifths,) if cur_ks is not None else None
+        if wt is not None and gt != wt:
+            res.violation("U1-signatures", opname, "visit %d (measure %d) of the result stands under time signature %s, the measure is in %s" % (i_ + 1, m + 1, gt, wt), site="time-signature")
+            return
+        if wk is not None and gk != wk:
+            res.violation("U1-signatures", opname, "visit %d (measure %d) of the result stands under key signature %s, the measure has %s" % (i_ + 1, m + 1, gk, wk), site="key-signature")
+            return
+        o_ += ms[m]["e"] - ms[m]["s"]
     # U2 no brackets / jumps
     for cls in (S.Repeat, S.Ending, S.DaCapo, S.DalSegno, S.ToCoda):
         if any(True for _ in rp.iter_all(cls)):
